@@ -76,7 +76,10 @@ def work(item):
     res = Result(f"{kind}|{p['label']}")
     from orquestra.quantum.decompositions import _decomposition as D, _orquestra_decompositions as OD
 
-    res.fn(D.decompose_operation, D.decompose_operations, OD.U3GateToRotation.predicate, OD.U3GateToRotation.production, OD.decompose_orquestra_circuit)
+    try:  # evidence only: a renamed private helper must not break the check
+        res.fn(D.decompose_operation, D.decompose_operations, OD.U3GateToRotation.predicate, OD.U3GateToRotation.production, OD.decompose_orquestra_circuit)
+    except AttributeError:
+        pass
     try:
         _work(res, p)
     except Refuse as e:
